@@ -277,6 +277,28 @@ func dhcpPersistence(c *core.Ctx, alpha []dEvent, hist []int, o dhcpOpts, r *dhc
 		}
 		restartOK = failure == ""
 
+		// (i') an acknowledged lease survives a crash right after the acknowledgement: at the moment an ACK is
+		// transmitted the device already holds the binding
+		for _, ai := range r.ackImages {
+			key := fmt.Sprintf("ack %d %v ", ai.k, ai.ip) + vfs.Key(ai.files)
+			if seenRewrites[key] {
+				continue
+			}
+			seenRewrites[key] = true
+			c.Count("ack_images", 1)
+			c.Count("evaluations", 1)
+			b, _, fail := loadState(s, o.mode, ai.files)
+			has := false
+			for _, x := range b {
+				if x.id == hex.EncodeToString(dID(ai.k)) && x.ip == ai.ip {
+					has = true
+				}
+			}
+			if fail != "" || !has {
+				add("ack-before-save", fmt.Sprintf("the ACK of %v to c%d was transmitted while the lease file did not hold the binding yet: a restart from the device content of that moment yields %v %s", ai.ip, ai.k+1, b, fail))
+			}
+		}
+
 		// (ii) crash points. The device logs every operation (open/truncate, write, sync, close, rename, remove) on the
 		// lease file and on any temporary file. A crash can leave the device in the state after any prefix of that
 		// log, or in the middle of a write (any byte prefix of its data). For every such state: construction neither
@@ -491,8 +513,8 @@ func restartBehaviour(o dhcpOpts, image []byte, want []binding, at int64) (failu
 		}
 		for _, b := range want {
 			k := -1
-			for i, m := range dClients {
-				if hex.EncodeToString(m) == b.mac {
+			for i := range dClients {
+				if hex.EncodeToString(dID(i)) == b.id {
 					k = i
 				}
 			}
@@ -528,7 +550,7 @@ func restartBehaviour(o dhcpOpts, image []byte, want []binding, at int64) (failu
 }
 
 func init() {
-	d := dhcpDriver("persist", "for every distinct lease table reached by the C11 exploration (depth 2, thorough 3, plus the scripted start states; two address plans): (i) restart from the saved file: bindings equal the ones the running handler held, owners' renewals are ACKed, bound addresses are not offered to a fresh client; (ii) crash points: the in-memory device logs every operation (open/truncate, write, sync, close, rename, remove) on the lease file and on temporary files; for the device state after every prefix of that log and in the middle of every write (every byte prefix in the thorough tier; first/last bytes and every 16th in quick) construction neither panics nor hangs, yields the bindings of the complete lease-file image before or after the interrupted save or an empty table, never a binding outside the home subnet or without client id, and a second restart from the files the recovering handler itself left yields the same bindings; (iii) every single-byte substitution by {space : - 0 9 a newline # 0xff} (quick: every second offset) and every line deletion/duplication of the saved file of the start states (thorough: of every state): no panic, no hang, no binding outside the home subnet or without client id, no binding absent from the original file, and a table that is intact or empty")
+	d := dhcpDriver("persist", "for every distinct lease table reached by the C11 exploration (depth 2, thorough 3, plus the scripted start states; two address plans): (i) restart from the saved file: bindings equal the ones the running handler held, owners' renewals are ACKed, bound addresses are not offered to a fresh client, and the device content at the moment each ACK is transmitted already holds the acknowledged binding; (ii) crash points: the in-memory device logs every operation (open/truncate, write, sync, close, rename, remove) on the lease file and on temporary files; for the device state after every prefix of that log and in the middle of every write (every byte prefix in the thorough tier; first/last bytes and every 16th in quick) construction neither panics nor hangs, yields the bindings of the complete lease-file image before or after the interrupted save or an empty table, never a binding outside the home subnet or without client id, and a second restart from the files the recovering handler itself left yields the same bindings; (iii) every single-byte substitution by {space : - 0 9 a newline # 0xff} (quick: every second offset) and every line deletion/duplication of the saved file of the start states (thorough: of every state): no panic, no hang, no binding outside the home subnet or without client id, no binding absent from the original file, and a table that is intact or empty")
 	base := d.Run
 	d.Run = func(c *core.Ctx, args []string) {
 		c.Res.Level = "fault_enumeration"
